@@ -103,8 +103,9 @@ def growth_guards(ctx):
     if fd is not None:
         sites = calls_to(fd, ADD_TAIL)
         ctx.call_sites += len(sites)
+        NODE_DISCR = "discr:model::network::nodes::Node"
         req = [call(MFC), call(N("track_count_of_maintenance_slot")), call(TRAINF + "::vehicle_count"),
-               call(ND("is_maintenance")), call(ND("is_service"))]
+               (call(ND("is_maintenance")), NODE_DISCR), (call(ND("is_service")), NODE_DISCR)]
         bad = []
         for ins in sites:
             at = fd.slice(seed_blocks=[ins.bb])["atoms"]
@@ -139,6 +140,14 @@ def growth_guards(ctx):
                         for c2 in h.body.calls():
                             if (c2.callee or "") in kinds:
                                 have.add(kinds[c2.callee])
+            # ... or the node is matched on directly (`match node { Node::Service(_) => .. }`) before the growth
+            for i2 in fdd.body.instrs():
+                if i2.kind == "assign" and i2.rv_kind() == "discr" and fdd.cfg.instr_dominates(i2, ins):
+                    tk = fdd.body.local_tk(i2.discr_place().local)
+                    while tk.get("k") == "ref":
+                        tk = tk.get("t", {})
+                    if tk.get("k") == "adt" and tk.get("p") == "model::network::nodes::Node":
+                        have |= set(kinds.values())
             miss = sorted(set(kinds.values()) - have)
             if miss:
                 problems.append((ins, miss))
@@ -205,7 +214,33 @@ def growth_guards(ctx):
                    loc=other[0].instr.line() if other and other[0].instr else None)
 
 
+def usage_queries_consult_the_map(ctx, rid="R4"):
+    """the counters of a depot are read from the usage map for EVERY depot (the overflow depot included): no result without the lookup"""
+    specs = [("number_of_vehicles_of_same_type_spawned_at_custom_usage", ("HashMap::get",)),
+             ("number_of_vehicles_spawned_at_custom_usage", ("Iterator::sum", "HashMap::get")),
+             ("depot_balance", ("HashMap::get",))]
+    for fn, lookups in specs:
+        o, fd = ctx.require_fn("%s.%s.every-result-comes-from-the-usage-map" % (rid, fn), "T1", S(fn),
+                               "%s answers from the depot usage map for every depot (no result that bypasses the lookup)" % fn)
+        if fd is None:
+            continue
+        rets = [i for i in fd.body.instrs() if i.kind == "return"]
+        look = [c for f in [fd] for c in f.body.calls() if any((c.callee or "").endswith(x) or (c.decl or "").endswith(x) for x in lookups)]
+        helper = [c for c in fd.body.calls() if (c.callee or "") in ctx.prog.bodies and (c.callee or "").startswith(SCHEDULE + "::")
+                  and any((c2.callee or "").endswith("HashMap::get") for h in hosts(ctx, c.callee, 1) for c2 in h.body.calls())]
+        cand = look + helper
+        if not cand or not rets:
+            ctx.undecided(o, "no lookup / return found")
+            continue
+        ok = all(any(fd.cfg.instr_dominates(c, r) for c in cand) for r in rets)
+        ctx.decide(o, ok, "the lookup dominates every return",
+                   "%s has a result that is produced without consulting the usage map (a special case in front of the lookup): the "
+                   "vehicles of that depot are not counted in the depot loads of the answer, nor against its capacity" % fn,
+                   loc=cand[0].line())
+
+
 def depot_limits(ctx):
+    usage_queries_consult_the_map(ctx)
     must_depend(ctx, "R4.can-spawn-sources", "T1", S("can_depot_spawn_vehicle_custom_usage"), "ret",
                 [call(N("capacity_of")), call(N("total_capacity_of")),
                  call(S("number_of_vehicles_of_same_type_spawned_at_custom_usage")),
@@ -384,7 +419,7 @@ def rules(ctx):
     flow_bounds(ctx)
     # the limit a departure carries is the one of its own route segment (loader rules shared with C17)
     from .C17 import loader_subset
-    loader_subset(ctx, ["create_service_trip."])
+    loader_subset(ctx, ["create_service_trip.", "create_maintenance.", "create_maintenance-positional", "Depot-new-positional"])
 
 
 def controls(ctx):
